@@ -740,6 +740,15 @@ public:
       return this;
    } // TypedArg< LevelCounter>::setAllowMixIncSet
 
+   /// Adds the value of the destination variable to the string.<br>
+   /// The constructor enables printing the default value, so the usage calls
+   /// this function for every optional level counter argument.
+   /// @param[out]  dest  The string to append the default value to.
+   void defaultValue( std::string& dest) const override
+   {
+      dest.append( std::to_string( mDestVar.value()));
+   } // TypedArg< LevelCounter>::defaultValue
+
 protected:
    /// Used for printing an argument and its destination variable.
    ///
